@@ -4,6 +4,7 @@
 //!   adsb-sim replay <file>
 //!   adsb-sim selftest
 
+mod client;
 mod reader;
 mod tracker;
 
@@ -52,6 +53,7 @@ fn main() {
             };
             std::process::exit(code);
         }
+        "kdemo" => client::demo(),
         _ => usage(),
     }
 }
